@@ -53,13 +53,16 @@ Ltac tiny_split :=
          | H : False |- _ => destruct H
          end; subst; (split; [reflexivity|intros; try reflexivity; try lia]).
 
-Lemma ex_partition_spec : partition_spec Nat.ltb (partition_ref Nat.ltb) (filter (@nonempty nat) ex_seqs) 3.
+Lemma ex_partition_spec4 : partition_spec Nat.ltb (partition_ref Nat.ltb) (filter (@nonempty nat) ex_seqs) 4.
 Proof.
   intros r Hr.
-  assert (C : (r = 0 \/ r = 1 \/ r = 2 \/ r = 3)%Z) by lia.
-  destruct C as [-> | [-> | [-> | ->]]]; (split; [|reflexivity]);
+  assert (C : (r = 0 \/ r = 1 \/ r = 2 \/ r = 3 \/ r = 4)%Z) by lia.
+  destruct C as [-> | [-> | [-> | [-> | ->]]]]; (split; [|reflexivity]);
     (split; [reflexivity|split; [reflexivity|]]); vm_compute partition_ref; tiny_split.
 Qed.
+
+Lemma ex_partition_spec : partition_spec Nat.ltb (partition_ref Nat.ltb) (filter (@nonempty nat) ex_seqs) 3.
+Proof. intros r Hr. apply ex_partition_spec4. lia. Qed.
 
 (** exact splitting of [ex_seqs], first 3 of 4 elements, 2 threads (and, by the theorem, any p >= 1) *)
 Example ex_exact_instance : forall p, 1 <= p ->
@@ -67,6 +70,7 @@ Example ex_exact_instance : forall p, 1 <= p ->
     (pmwm_base Nat.ltb (partition_ref Nat.ltb) (seqmerge_ref Nat.ltb) true false ex_seqs 3 p 10).
 Proof.
   intros p Hp. apply pmwm_base_exact_stable.
+  - exact SWO_nat.
   - exact ex_sorted.
   - vm_compute. lia.
   - exact Hp.
@@ -88,6 +92,20 @@ Proof.
   - exact SWO_nat.
   - exact ex_sorted.
   - apply seqmerge_ref_spec.
+  - exact ex_partition_spec4.
+Qed.
+
+(** MWMSA_SAMPLING with a proper prefix (3 of 4): served by the exact splitter *)
+Example ex_sampling_prefix_instance : forall p os, 1 <= p -> 1 <= os ->
+  parallel_result Nat.ltb ex_seqs 3 p
+    (pmwm_base Nat.ltb (partition_ref Nat.ltb) (seqmerge_ref Nat.ltb) true true ex_seqs 3 p os).
+Proof.
+  intros p os Hp Hos. apply pmwm_base_sampling_stable; auto.
+  - exact SWO_nat.
+  - exact ex_sorted.
+  - vm_compute. lia.
+  - apply seqmerge_ref_spec.
+  - exact ex_partition_spec.
 Qed.
 
 (** ** The shipped code (tlx 704fd0b) *)
@@ -104,14 +122,21 @@ Lemma exact_last_shipped_refuted :
     size < total seqs /\ exact_last_shipped (partition_ref Nat.ltb) seqs size 1 = None.
 Proof. exists [[1; 2]; [3]], 1. split; vm_compute; [lia|reflexivity]. Qed.
 
-(** sampling splitting with size < total (recorded finding `sampling-size-lt-total`; the model is the
-    shipped code): 3 x [1..10], size 10, 3 threads: every input is advanced to its very end, although
-    only 10 of the 30 elements were written; and [2,5],[3],[2], size 2, 5 threads, oversampling 10:
-    a thread is asked to merge a negative number of elements (undefined behaviour). *)
+(** sampling splitting with size < total as shipped (selection `if (mwmsa == MWMSA_SAMPLING)`, repaired by
+    "fix: parallel_multiway_merge() uses exact splitting when only a prefix is merged"):
+    3 x [1..10], size 10, 3 threads: every input is advanced to its very end, although only 10 of the 30
+    elements were written; and [2,5],[3],[2], size 2, 5 threads, oversampling 10: a thread is asked to
+    merge a negative number of elements (undefined behaviour).  The repaired selection gives 4,3,3. *)
 Definition s10 : list nat := [1; 2; 3; 4; 5; 6; 7; 8; 9; 10].
 
 Lemma sampling_size_lt_total_refuted :
-  (exists r, pmwm_base Nat.ltb (partition_ref Nat.ltb) (seqmerge_ref Nat.ltb) true true [s10; s10; s10] 10 3 10 = Some r /\
+  (exists r, pmwm_base_shipped Nat.ltb (partition_ref Nat.ltb) (seqmerge_ref Nat.ltb) true true [s10; s10; s10] 10 3 10 = Some r /\
              p_cursors r = [10; 10; 10] /\ p_ret r = 10) /\
-  pmwm_base Nat.ltb (partition_ref Nat.ltb) (seqmerge_ref Nat.ltb) true true [[2; 5]; [3]; [2]] 2 5 10 = None.
-Proof. split; [eexists; split; [vm_compute; reflexivity|split; reflexivity]|vm_compute; reflexivity]. Qed.
+  pmwm_base_shipped Nat.ltb (partition_ref Nat.ltb) (seqmerge_ref Nat.ltb) true true [[2; 5]; [3]; [2]] 2 5 10 = None /\
+  (exists r, pmwm_base Nat.ltb (partition_ref Nat.ltb) (seqmerge_ref Nat.ltb) true true [s10; s10; s10] 10 3 10 = Some r /\
+             p_cursors r = [4; 3; 3] /\ p_ret r = 10).
+Proof.
+  split; [eexists; split; [vm_compute; reflexivity|split; reflexivity]|].
+  split; [vm_compute; reflexivity|].
+  eexists; split; [vm_compute; reflexivity|split; reflexivity].
+Qed.
